@@ -1,6 +1,6 @@
 # Human-written metadata per check for MANIFEST.json.
 ENGINES = [
-    {"name": "seqx", "path": "/verif/kit (bfs.go) + /verif/checks/*", "serves_properties": ["C03", "C12"],
+    {"name": "seqx", "path": "/verif/kit (bfs.go) + /verif/checks/*", "serves_properties": ["C02", "C03", "C12"],
      "kind_free_text": "sequential bounded-exhaustive / explicit-state explorer over the real objects (fresh object + replay per path, canonical state hash)"},
 ]
 
@@ -8,6 +8,13 @@ PENDING = "harness not built yet in this session (planned in DESIGN.md; will be 
 NOT_APPLICABLE = [{"property_id": "C%02d" % i, "reason": PENDING} for i in range(1, 21)]
 
 META = {
+    "C02": {
+        "engine": "seqx",
+        "technique": "exhaustive input cross product + every-bit mutation of real sealed frames vs reference layout",
+        "design_ref": "DESIGN.md §2 C02",
+        "text": "Full cross product of the 7 message types x 11 payload sizes (1..10000, around every pooled-buffer tier) x 5 switch-block sizes (0..255) x 4 appendix sizes x 3 builder margins is sealed by A and unsealed at B (exact payload/switch/appendix/addresses), unsealed under four wrong sessions (other sender, sender's own, other receiver, other key exchange) and scanned for clear-text payload windows. For a sub-grid every single bit of the serialized frame is flipped and the outcome compared with a layout computed from sizes only (TTL, flow flags, appendix harmless; everything else must fail); harmless flips use freshly sealed frames so the replay filter cannot mask the verdict. Exhaustive over the stated grid and all bit positions.",
+        "note": "Trusts the AEAD/signature primitives; sizes between grid points assumed to behave like grid points; multi-bit mutations are not enumerated (single-bit detection by a MAC/signature over the covered range implies coverage, which is what is being established).",
+    },
     "C03": {
         "engine": "seqx",
         "technique": "exhaustive enumeration of delivery histories on the real handlers/frames vs reference set model",
